@@ -248,21 +248,21 @@ func (l *Ledger) writeEvidence(path, tier string, seed int, wall float64, explan
 		rules[r] = l.RuleTexts[r]
 	}
 	cov := map[string]any{
-		"explanation":         explanation,
-		"rule":                "one obligation per (rule, construct) instance found in /repo's current source by resolving the rule's anchors in the type-checked SSA program; an obligation is non-trivial when deciding it needed a path, dominance, provenance or dataflow argument (not a mere existence check); distinct = distinct rule+construct keys",
-		"obligations":         len(l.Obls),
-		"discharged":          discharged,
-		"evaluations":         len(l.Obls),
-		"distinct_nontrivial": nontrivial,
-		"samples":             samples,
-		"rules":               rules,
+		"explanation":          explanation,
+		"rule":                 "one obligation per (rule, construct) instance found in /repo's current source by resolving the rule's anchors in the type-checked SSA program; an obligation is non-trivial when deciding it needed a path, dominance, provenance or dataflow argument (not a mere existence check); distinct = distinct rule+construct keys",
+		"obligations":          len(l.Obls),
+		"discharged":           discharged,
+		"evaluations":          len(l.Obls),
+		"distinct_nontrivial":  nontrivial,
+		"samples":              samples,
+		"rules":                rules,
 		"obligations_per_rule": perRule,
-		"functions_analysed":  funcs,
-		"call_sites":          l.callSites,
-		"variants":            variants,
-		"advisories":          l.Advisories,
-		"all_obligations":     l.Obls,
-		"checker_cmd":         "./run.sh " + l.Prop + " " + tier,
+		"functions_analysed":   funcs,
+		"call_sites":           l.callSites,
+		"variants":             variants,
+		"advisories":           l.Advisories,
+		"all_obligations":      l.Obls,
+		"checker_cmd":          "./run.sh " + l.Prop + " " + tier,
 		"trusted_base": []string{"Go type checker (go/types) and go/packages loader", "golang.org/x/tools go/ssa v0.50.0 (SSA construction, dominator tree)",
 			"Go semantics of mutexes, channels (FIFO) and sync/atomic", "frozen tables in checker/rules_" + strings.ToLower(l.Prop) + ".go"},
 		"exhaustive": false,
